@@ -25,7 +25,7 @@ CONFIG = {
 
 def cfg_fn(rng, ctx):
     depth = int(rng.choice([1, 2, 2])) if ctx.quick() else int(rng.choice([1, 2, 2, 3]))
-    return gen.Cfg(depth=depth, allow_zero_len=True, hostile_idx=rng.random() < 0.35, weights={"Switch": 2.5, "Vmap": 2.5, "Repeat": 1.5})
+    return gen.Cfg(depth=depth, allow_zero_len=True, hostile_idx=rng.random() < 0.35, tuple_addr=0.4, weights={"Switch": 2.5, "Vmap": 2.5, "Repeat": 1.5})
 
 
 def h_importance(ctx, plan, case, rec, rng, nk, hist, route, guarded):
